@@ -157,7 +157,39 @@ func genScaleModel(t *tape.Tape) []MClass {
 	return model
 }
 
+// genFanInModel has one utility method with 30..45 call sites in 25..40 callers (some call it twice),
+// the callers being called from a few entry methods: counts around the usual small thresholds.
+func genFanInModel(t *tape.Tape) []MClass {
+	n := t.Int(25, 40)
+	util := MClass{NodeName: "Util", Package: "fan", Type: "Class", Functions: []MFunc{{Name: "fmt"}}}
+	entry := MClass{NodeName: "Entry", Package: "fan", Type: "Class", Functions: []MFunc{{Name: "main"}, {Name: "batch"}}}
+	model := []MClass{util, entry}
+	for i := 0; i < n; i++ {
+		c := MClass{NodeName: fmt.Sprintf("W%02d", i), Package: "fan", Type: "Class", Functions: []MFunc{{Name: "run"}}}
+		c.Functions[0].FunctionCalls = append(c.Functions[0].FunctionCalls, MCall{Package: "fan", NodeName: "Util", FunctionName: "fmt"})
+		if t.Bool(1, 3) {
+			c.Functions[0].FunctionCalls = append(c.Functions[0].FunctionCalls, MCall{Package: "fan", NodeName: "Util", FunctionName: "fmt"}) // a second call site
+		}
+		if i == 0 {
+			// library callees whose full names collide with "fan.Util.fmt" under the usual 32-bit string
+			// hashes (FNV-1a, FNV-1, CRC-32; found by search) and under Java's String.hashCode
+			// ("fan.UtjM.fmt"): a name is its text, never its hash
+			for _, x := range []string{"x57yn44", "x2kuolmy", "x37xxsva"} {
+				c.Functions[0].FunctionCalls = append(c.Functions[0].FunctionCalls, MCall{Package: "ext.lib", NodeName: "Lib", FunctionName: x})
+			}
+			c.Functions[0].FunctionCalls = append(c.Functions[0].FunctionCalls, MCall{Package: "fan", NodeName: "UtjM", FunctionName: "fmt"})
+		}
+		model = append(model, c)
+		e := t.Pick(2)
+		model[1].Functions[e].FunctionCalls = append(model[1].Functions[e].FunctionCalls, MCall{Package: "fan", NodeName: c.NodeName, FunctionName: "run"})
+	}
+	return model
+}
+
 func genModel(t *tape.Tape, thorough bool) []MClass {
+	if t.Bool(1, 60) {
+		return genFanInModel(t)
+	}
 	if t.Bool(1, 16) {
 		return genCollisionModel(t)
 	}
@@ -165,11 +197,17 @@ func genModel(t *tape.Tape, thorough bool) []MClass {
 		return genScaleModel(t)
 	}
 	pkgs := []string{"p", "q.r", "com.x"}
+	sameNameOdds := 5
 	if t.Bool(1, 4) {
 		pkgs = []string{"p", "", "com.x"} // some classes live in the default package
 	} else if t.Bool(1, 5) {
 		// project packages that merely look like library packages
 		pkgs = [][]string{{"javabook.ch1", "javax.ext", "p"}, {"java.compat", "org.junit.rules", "sun.tools"}, {"kotlin.demo", "android.app", "lang"}}[t.Pick(3)]
+	} else if t.Bool(1, 5) {
+		// packages one of which ends in (or starts with) the other: whole names become suffixes and
+		// prefixes of each other when class and method names repeat
+		pkgs = [][]string{{"app.svc", "webapp.svc", "svc"}, {"data", "metadata", "data.meta"}}[t.Pick(2)]
+		sameNameOdds = 2
 	}
 	clsNames := []string{"A", "B", "C", "D", "E", "F"}
 	maxClasses, maxMethods := 4, 4
@@ -189,7 +227,7 @@ func genModel(t *tape.Tape, thorough bool) []MClass {
 		case 1:
 			c.Type = ""
 		}
-		if i > 0 && t.Bool(1, 5) {
+		if i > 0 && t.Bool(1, sameNameOdds) {
 			// the same simple class name again, in another package if possible
 			c.NodeName = clsNames[t.Pick(i)]
 		}
